@@ -731,6 +731,14 @@ func (r *Runtime) typedArrayProto_includes(call FunctionCall) Value {
 			return valueFalse
 		}
 		if ta.typedArray.typeMatch(searchElement) {
+			if ta.searchByValue() {
+				for k := startIdx; k < ta.length; k++ {
+					if ta.elementEquals(k, searchElement, true) {
+						return valueTrue
+					}
+				}
+				return valueFalse
+			}
 			se := ta.typedArray.toRaw(searchElement)
 			for k := startIdx; k < ta.length; k++ {
 				if ta.typedArray.getRaw(ta.offset+k) == se {
@@ -741,6 +749,26 @@ func (r *Runtime) typedArrayProto_includes(call FunctionCall) Value {
 		return valueFalse
 	}
 	panic(r.NewTypeError("Method TypedArray.prototype.includes called on incompatible receiver %s", r.objectproto_toString(FunctionCall{This: call.This})))
+}
+
+// searchByValue reports whether includes/indexOf/lastIndexOf must compare element values rather than raw bits: for float
+// arrays the raw encoding of the search value is lossy (rounding to float32, +0/-0, NaN payloads) and for BigInt arrays it is
+// taken modulo 2^64.
+func (a *typedArrayObject) searchByValue() bool {
+	switch a.typedArray.(type) {
+	case *float32Array, *float64Array, *bigInt64Array, *bigUint64Array:
+		return true
+	}
+	return false
+}
+
+// elementEquals compares element k with v using SameValueZero (sameValueZero) or IsStrictlyEqual.
+func (a *typedArrayObject) elementEquals(k int, v Value, sameValueZero bool) bool {
+	el := a.typedArray.get(a.offset + k)
+	if el.StrictEquals(v) {
+		return true
+	}
+	return sameValueZero && IsNaN(el) && IsNaN(v)
 }
 
 func (r *Runtime) typedArrayProto_at(call FunctionCall) Value {
@@ -785,6 +813,14 @@ func (r *Runtime) typedArrayProto_indexOf(call FunctionCall) Value {
 				searchElement = _positiveZero
 			}
 			if !IsNaN(searchElement) && ta.typedArray.typeMatch(searchElement) {
+				if ta.searchByValue() {
+					for k := toIntStrict(n); k < ta.length; k++ {
+						if ta.elementEquals(k, searchElement, false) {
+							return intToValue(int64(k))
+						}
+					}
+					return intToValue(-1)
+				}
 				se := ta.typedArray.toRaw(searchElement)
 				for k := toIntStrict(n); k < ta.length; k++ {
 					if ta.typedArray.getRaw(ta.offset+k) == se {
@@ -876,6 +912,14 @@ func (r *Runtime) typedArrayProto_lastIndexOf(call FunctionCall) Value {
 				searchElement = _positiveZero
 			}
 			if !IsNaN(searchElement) && ta.typedArray.typeMatch(searchElement) {
+				if ta.searchByValue() {
+					for k := toIntStrict(fromIndex); k >= 0; k-- {
+						if ta.elementEquals(k, searchElement, false) {
+							return intToValue(int64(k))
+						}
+					}
+					return intToValue(-1)
+				}
 				se := ta.typedArray.toRaw(searchElement)
 				for k := toIntStrict(fromIndex); k >= 0; k-- {
 					if ta.typedArray.getRaw(ta.offset+k) == se {
